@@ -17,6 +17,9 @@ from simworld import peers, world as W
 ECHO_IF = (uuid.UUID("11111111-2222-3333-4444-555555555555"), 1, 0)
 
 # scenario: (kind, auth, sec_addr_len, n_contexts, stub_len)
+# pauses between two segments of a reply (virtual seconds); the connection itself is made with a 5 s connect timeout, which says
+# nothing about how long a peer may take between two segments (a caller-supplied socket that keeps a timeout: only the first four)
+GAPS = (0.05, 0.5, 2.0, 4.0, 6.0, 75.0)
 SCENARIOS: t.List[tuple] = []
 for sa in range(0, 8):
     SCENARIOS.append(("bind", False, sa, 1, 0))
@@ -123,13 +126,18 @@ def _execute(sc, flavour: str, delivery: t.Optional[dict], seed: int = 0):
 _BASE: t.Dict[tuple, tuple] = {}
 
 
+class BaselineBroken(Exception):
+    """The one-piece, fault-free delivery of a scenario already gives the wrong outcome (reported as a violation of its own, not as
+    a harness error: it is the code under test that misbehaves)."""
+
+
 def baseline(si: int, flavour: str):
     key = (si, flavour)
     if key not in _BASE:
         sc = SCENARIOS[si]
         out, world, target = _execute(sc, flavour, None)
-        if out.kind == "raise" and sc[0] != "fault":
-            raise common.HarnessError(f"baseline of scenario {sc} {flavour} failed: {out.exc!r}")
+        if out.kind != "ok" and sc[0] != "fault":
+            raise BaselineBroken(f"scenario {sc} {flavour}, reply delivered in one piece: {out.brief()} {out.exc!r}")
         if target is None:
             raise common.HarnessError(f"baseline of scenario {sc}: target message was never sent")
         # the baseline itself is validated against the independent decoder
@@ -142,7 +150,7 @@ def _check_against_ref(sc, out, target: bytes) -> None:
     ref = rpce.parse_pdu(target)
     if sc[0] == "fault":
         if out.kind != "raise":
-            raise common.HarnessError("fault scenario did not raise in one piece")
+            raise BaselineBroken(f"scenario {sc}: a fault PDU delivered in one piece did not surface as an error ({out.brief()})")
         return
     pdu = out.value[0]
     bad = []
@@ -154,7 +162,7 @@ def _check_against_ref(sc, out, target: bytes) -> None:
         if (pdu.sec_trailer.auth_value if pdu.sec_trailer else None) != (ref["auth"]["value"] if ref["auth"] else None):
             bad.append("token")
     if bad:
-        raise common.HarnessError(f"one-piece decode of scenario {sc} disagrees with ref.rpce: {bad}")
+        raise BaselineBroken(f"one-piece decode of scenario {sc} disagrees with the independent decoder: {bad}")
 
 
 def run_pair(case) -> dict:
@@ -210,7 +218,11 @@ def run_pair(case) -> dict:
         whole = drive.classify(lambda: drive.run_async(world, main, _r.Random(seed), (1, (20, 500, 5000)[seed % 3])))
     viol = None
     for tag, sidx in (("a", si), ("b", sj)):
-        base, _target = baseline(sidx, "async")
+        try:
+            base, _target = baseline(sidx, "async")
+        except BaselineBroken as e:
+            viol = common.violation("C14", "reassembly", "async", "one-piece-delivery", "", SCENARIOS[sidx][0], str(e))
+            break
         o = outs.get(tag) or whole
         if not o.same_as(base):
             kind, frame = drive.exc_sig(o)
@@ -247,7 +259,11 @@ class C14(common.Check):
         lim3 = 96 if tier == "quick" else 256
         for si, sc in enumerate(SCENARIOS):
             for fl in ("sync", "async", "sync-timeout"):
-                _o, target = baseline(si, fl)
+                try:
+                    _o, target = baseline(si, fl)
+                except BaselineBroken:
+                    out.append([si, fl, "onepiece", 0, 0])
+                    continue
                 n = len(target)
                 if fl == "sync-timeout":
                     # the same client over a caller-supplied socket with a timeout: single cuts and stream ends only
@@ -289,7 +305,7 @@ class C14(common.Check):
                 # reply is pending (NTP correction, VM resume); neither changes what a reliable byte stream delivers
                 for a in sorted({1, 9, 16, 17, max(1, n // 2), n - 1}):
                     if 0 < a < n:
-                        for k, secs in enumerate((0.05, 0.5, 2.0, 4.0)):
+                        for k, secs in enumerate(GAPS if fl != "sync-timeout" else GAPS[:4]):
                             out.append([si, fl, "gap", a, k])
                         for k in range(4):
                             out.append([si, fl, "clockjump", a, k])
@@ -318,7 +334,13 @@ class C14(common.Check):
             return run_pair(case)
         si, fl, mode, a, b = case
         sc = SCENARIOS[si]
-        base, target = baseline(si, fl)
+        try:
+            base, target = baseline(si, fl)
+        except BaselineBroken as e:
+            return {"viol": common.violation("C14", "reassembly", fl, "one-piece-delivery", "", sc[0], str(e)), "digest": "baseline-broken", "key": common.key_hash(case),
+                    "fired": {}, "probes": {}, "vtime_ns": 0}
+        if mode == "onepiece":
+            return {"viol": None, "digest": "onepiece-ok", "key": None, "fired": {}, "probes": {}, "vtime_ns": 0}
         tm = _target_msg(sc)
         n = len(target)
         if mode == "cuts":
@@ -328,7 +350,7 @@ class C14(common.Check):
         elif mode == "rand":
             d = {"mode": "rand", "seed": a, "bias": ("small", "header", "geo")[b]}
         elif mode == "gap":
-            d = {"mode": "cuts", "cuts": {str(tm): [a]}, "gaps": [[tm, 1, (0.05, 0.5, 2.0, 4.0)[b]]] + ([[tm, 0, 0.2]] if b % 2 else [])}
+            d = {"mode": "cuts", "cuts": {str(tm): [a]}, "gaps": [[tm, 1, GAPS[b]]] + ([[tm, 0, 0.2]] if b % 2 else [])}
         elif mode == "clockjump":
             d = {"mode": "cuts", "cuts": {str(tm): [a]}, "clock_jumps": [[tm, 1, (61.0, 3600.0, -3600.0, 86400.0 * 400)[b]]] + ([[tm, 0, 75.0]] if b == 0 else [])}
         elif mode == "eofafter":
